@@ -71,6 +71,10 @@ def run(ctx):
     itw = ['vy1iic/ebr0;' + p for p in ITW] + ['vy128iic/ebr0;' + p for p in ARR] + ['vy128isc/hp3;' + p for p in ARR[:2]] + ([] if q else ['vy128%sc/%s;%s' % (m, r, p) for p in ITW for m in ('is', 'sm') for r in ('hp3', 'stamp')])
     run_vy(ctx, itw, pb=2 if q else 3, max_exec=15000 if q else 100000, max_steps=6000, tagx='w', nsh=len(itw))
     run_vy(ctx, deep, pb=2 if q else 3, max_exec=2500 if q else 40000, max_steps=6000, tagx='d')
+    # an exception from the key comparison inside find() / iterator construction (key type with a throwing operator==, driver mode `ti`, op fndx):
+    # the half-built iterator must release the bucket - every later locking operation on it hangs otherwise (seeded change c11_6)
+    for r in (('ebr0', 'hp3') if q else RECL):
+        jobs += ['vy8tic/%s;;emp1,emp2,fndx1,emp3,era1,get2,trav' % r, 'vy8tic/%s;emp1,emp2;fndx2,emp3;get1,emp4' % r, 'vy128tic/%s;emp1,emp2,emp3,emp4,emp5;fndx5,era5;get4,emp6' % r]
     run_vy(ctx, jobs, pb=2 if q else 3, max_exec=300 if q else 30000, max_steps=6000)
     if not q:
         run_vy(ctx, jobs, pb=5, max_exec=0, mode='random', runs=500, tagx='r', max_steps=6000)
